@@ -165,6 +165,11 @@ def run(ctx):
                 r3.ok(key, "inside or_insert_with(|| ..) — runs only when the session is created", s.loc)
             else:
                 r3.violation(key, "open notification not tied to session creation", s.loc)
+        elif root == MR + "::get_receiver_or_create" and s.func.kind != "closure" and any(
+                a[0] == "variant" and a[2] == "Vacant" and t and any(c[0] == "call" and c[1].endswith("::entry") and "alc_receiver" in show(c[2][0]) for c in walk(a[1]))
+                for (a, t) in Flow(s.func.body).facts_at(s.bb)):
+            # the same thing spelled as `match map.entry(k) { Vacant(e) => { notify; e.insert(..) } .. }`
+            r3.ok(key, "inside the Entry::Vacant arm of alc_receiver.entry(..) - runs only when the session is created", s.loc)
         else:
             r3.violation(key, "on_session_open called outside session creation", s.loc)
     removers = {}
